@@ -4,7 +4,7 @@
    read from the header -- for every state and both profiles.  (That the vector's NAME is gone
    afterwards, whether or not a destructor panicked, is Rust's drop glue: Machine.drop_vec.) *)
 From Coq Require Import ZArith List String Bool Lia.
-From MV Require Import Ast Eval Scalar Machine Equiv Prims EquivTac.
+From MV Require Import Ast Eval Scalar Machine EquivDefs Prims EquivTac.
 From MV.Gen Require Import AstGen.
 Import ListNotations.
 Open Scope string_scope.
